@@ -78,8 +78,9 @@ Lemma decode_add_high b n : 0 <= b -> forall k x e, (n <= k)%nat ->
 Proof.
   intros Hb. induction n as [|n IH]; intros k x e Hk; cbn [decode]; [reflexivity|].
   f_equal; [|apply IH; lia].
-  assert (E : b * Z.of_nat k = b * Z.of_nat (k - n - 1) + b + b * Z.of_nat n) by lia.
-  rewrite E, !Z.pow_add_r by lia.
+  assert (E : b * Z.of_nat k = b * Z.of_nat (k - n - 1) + b + b * Z.of_nat n).
+  { replace (Z.of_nat k) with (Z.of_nat (k - n - 1) + 1 + Z.of_nat n) by lia. ring. }
+  rewrite E, !Z.pow_add_r by (try apply Z.mul_nonneg_nonneg; lia).
   pose proof (pow2_pos (b * Z.of_nat n) ltac:(lia)) as HP.
   pose proof (pow2_pos b Hb) as HB.
   replace (x * (2 ^ (b * Z.of_nat (k - n - 1)) * 2 ^ b * 2 ^ (b * Z.of_nat n)) + e)
@@ -121,6 +122,6 @@ Lemma nth_decode b n v k : (k < n)%nat ->
 Proof.
   revert k. induction n as [|n IH]; intros k Hk; [lia|]. cbn [decode].
   destruct k as [|k]; cbn [nth].
-  - repeat f_equal. lia.
-  - rewrite IH by lia. repeat f_equal. lia.
+  - replace (S n - 1 - 0)%nat with n by lia. reflexivity.
+  - rewrite IH by lia. replace (S n - 1 - S k)%nat with (n - 1 - k)%nat by lia. reflexivity.
 Qed.
